@@ -13,6 +13,7 @@ func init() {
 	harn.Register("C05_Wrap", RunWrap)
 	harn.Register("C05_Alloc", RunAlloc)
 	harn.Register("C12_Hostile", RunHostile)
+	harn.Register("C12_WriteDeadline", RunWriteDeadline)
 }
 
 func TestReplay(t *testing.T)  { harn.Replay(t) }
@@ -22,3 +23,10 @@ func TestC05_Mux(t *testing.T)     { harn.Check(t, "C05_Mux", GenMux, RunMux) }
 func TestC05_Wrap(t *testing.T)    { harn.Check(t, "C05_Wrap", GenWrap, RunWrap) }
 func TestC05_Alloc(t *testing.T)   { harn.Check(t, "C05_Alloc", GenAlloc, RunAlloc) }
 func TestC12_Hostile(t *testing.T) { harn.Check(t, "C12_Hostile", GenHostile, RunHostile) }
+
+// TestC12_ProbeD17 exercises the known finding D17 (see known-findings.txt).
+func TestC12_ProbeD17(t *testing.T) {
+	for _, us := range []int{200, 1000, 5000} {
+		harn.RunOne(t, "C12_WriteDeadline", DeadlineCase{DeadlineUs: us, Later: 3}, RunWriteDeadline)
+	}
+}
